@@ -159,6 +159,9 @@ def check(ctx, fname, sname, sp, f, tags, rng, ref=None):
                 why = None if min(errs) < 1e-6 else 'fd-mismatch'
             else:
                 why = fd.verdict(errs)
+            if why and not fd.quotient_sequence_converged(sp.field):
+                ctx.skip('difference quotients of the values do not converge in the step range')
+                why = None
             if why:
                 ctx.violation(comp, cfg, 'gradient-' + why, errors=['%.1e' % e for e in errs])
                 break
